@@ -115,6 +115,10 @@ def match(pid, fail):
             and fail.get("explained_by_repaired_build") is True:
         # the case passes on a build in which exactly that defect is repaired (vf/rawwire.py)
         return "raw-swap-inner-part-overaligned"
+    if pid == "C10" and fail.get("check") == "sizer-range" and fail.get("exception") == "error" \
+            and "format requires" in what:
+        # struct.error from packing the counter: the array outgrew its sizer's range
+        return "python-array-outgrows-sizer"
     if pid == "C12" and fail.get("check") == "legality" and fail.get("label") in ("struct named E", "enum named E") \
             and "s.ppf.cpp does not compile" in what:
         # the generated full-codec source declares `template <endianness E>`: a type called E collides with it
